@@ -251,6 +251,16 @@ int main(int argc, char** argv) {
     run_class(or_matrix_adapter<NF>("OR_Matrix<float>"), depth + 1);
     run_class(or_matrix_adapter<N16>("OR_Matrix<int16_t>"), depth + 1);
   }
+#elif VF_GROUP == 10
+  run_class(interval_adapter<PPL::Rational_Interval>("Rational_Interval"), depth);
+  run_class(interval_adapter<PPL::Interval<double, PPL::Floating_Point_Box_Interval_Info> >("Interval<double>"), depth);
+  run_class(interval_adapter<PPL::Interval<float, PPL::Floating_Point_Box_Interval_Info> >("Interval<float>"), depth);
+  run_class(interval_adapter<PPL::Interval<mpz_class, PPL::Z_Box_Interval_Info> >("Interval<mpz_class>"), depth);
+  run_class(interval_adapter<PPL::Interval<int8_t, PPL::Native_Integer_Box_Interval_Info> >("Interval<int8_t>"), depth);
+#elif VF_GROUP == 11
+  run_class(xbox_adapter<PPL::Double_Box>("Double_Box"), depth);
+  run_class(xbox_adapter<PPL::Float_Box>("Float_Box"), depth);
+  run_class(xbox_adapter<PPL::Int8_Box>("Int8_Box"), depth);
 #else
 #error "VF_GROUP not set"
 #endif
